@@ -169,7 +169,9 @@ def connector_get(u: U):
     connected, within the keep-alive age and still clean; every rejected one is closed"""
     log = []
     key, other = _Key(), _Key()
-    n = 1 + u.choose(2, "pooled")
+    from pyvc.registry import width
+
+    n = 1 + u.choose(width(2, 4), "pooled")
     t1 = u.real("now")
     protos = [_P(u, f"p{i}", log) for i in range(n)]
     t0s = [u.real(f"t0.{i}") for i in range(n)]
@@ -181,7 +183,7 @@ def connector_get(u: U):
                                 "_cleanup_closed_transports": [], "_loop": "LOOP"}, {}, shared=False)
     f = u.load(CONN, "BaseConnector._get", globals={"monotonic": lambda: t1,
                                                     "Connection": lambda conn, k, proto, loop: ("CONN", k, proto)})
-    u.loop(FN_GET, 0, unroll=True, bound=3)
+    u.loop(FN_GET, 0, unroll=True, bound=6)
     u.loop(FN_GET, 1, unroll=True, bound=2)
     out = u.call(f, c, key, [])
     u.check("C06.get.total", out.ok, repr(out))
